@@ -11,6 +11,7 @@ import (
 	"go/types"
 	"io"
 	"sort"
+	"strings"
 )
 
 func printerFprint(w io.Writer, fset *token.FileSet, n any) error { return printer.Fprint(w, fset, n) }
@@ -154,8 +155,11 @@ func (x *Exec) stmt(st *State, s ast.Stmt) *Flow {
 		}
 		return newFlow(st)
 	case *ast.SendStmt:
-		x.expr(st, s.Value)
+		v := x.expr(st, s.Value)
 		x.abstractNote(s, "channel send dropped (concurrency: abstracted)")
+		// the send itself is abstracted, but a contract may observe it: `at send@<channel expression>[#k]: ...` runs here, the
+		// value sent is $a0 (k counts the send statements on that channel expression in source order)
+		x.sendAnchor(st, s, v)
 		return newFlow(st)
 	case *ast.SelectStmt:
 		return x.selectStmt(st, s, x.labels[s])
@@ -1187,4 +1191,38 @@ func (x *Exec) wholeAssignedIn(n ast.Node) map[types.Object]bool {
 		return true
 	})
 	return out
+}
+
+func (x *Exec) sendAnchor(st *State, s *ast.SendStmt, v Term) {
+	q := x.exprText(s.Chan)
+	for oldName, nw := range x.aliases {
+		if q == nw {
+			q = oldName
+		} else if strings.HasPrefix(q, nw+".") {
+			q = oldName + q[len(nw):]
+		}
+	}
+	if x.anchorsHit == nil {
+		x.anchorsHit = map[string]bool{}
+	}
+	if x.sendOrd == nil {
+		x.sendOrd = map[*ast.SendStmt]int{}
+		x.sendCnt = map[string]int{}
+	}
+	ord, seen := x.sendOrd[s]
+	if !seen {
+		ord = x.sendCnt[q]
+		x.sendCnt[q]++
+		x.sendOrd[s] = ord
+	}
+	qn := fmt.Sprintf("%s#%d", q, ord)
+	x.anchorsHit["send@"+q] = true
+	x.anchorsHit["send@"+qn] = true
+	if len(x.ct.CallGhost["send@"+q])+len(x.ct.CallGhost["send@"+qn]) == 0 {
+		return
+	}
+	st.ghost["$a0"] = v
+	x.runGhost(st, x.ct.CallGhost["send@"+q], "send@"+q, s)
+	x.runGhost(st, x.ct.CallGhost["send@"+qn], "send@"+qn, s)
+	delete(st.ghost, "$a0")
 }
